@@ -348,8 +348,9 @@ func writeCex(path, harness string, params map[string]int, v gosym.Violation) {
 		Detail    string            `json:"detail,omitempty"`
 		Decisions any               `json:"decisions,omitempty"`
 		Stack     []string          `json:"stack,omitempty"`
+		Tolerate  []string          `json:"tolerate,omitempty"`
 	}
-	b, _ := json.MarshalIndent(cex{Harness: harness, Values: v.Values, Params: params, Tag: v.Tag, Detail: v.Detail, Decisions: v.Decisions, Stack: v.Stack}, "", " ")
+	b, _ := json.MarshalIndent(cex{Harness: harness, Values: v.Values, Params: params, Tag: v.Tag, Detail: v.Detail, Decisions: v.Decisions, Stack: v.Stack, Tolerate: v.Tolerate}, "", " ")
 	os.WriteFile(path, b, 0o644)
 }
 
